@@ -310,6 +310,25 @@ func VerifTrav_DuplicateIDs() {
 	verifReach("end")
 }
 
+// An address reported again while its first query is still in flight: two seeds queried together
+// (Alpha 2); each lists the other - under its real ID or under another one - so whichever answers
+// first re-reports the one still being asked, which is then the closest candidate when the slot
+// frees. Every completion order: each address is asked once.
+func VerifTrav_RelistedInFlight() {
+	const count, k = 2, 2
+	n := verifNewNet(verifTarget, count)
+	for i := 0; i < count; i++ {
+		o := 1 - i
+		if verifNondetBool() {
+			n.nodes[i].neighbours = []int{o}
+		} else {
+			n.nodes[i].aliases = []krpc.NodeInfo{{ID: verifID(verifTarget, byte(0x10+i)), Addr: n.nodes[o].addr}}
+		}
+	}
+	n.run(2, k, []int{0, 1}, false)
+	verifReach("end")
+}
+
 func VerifTrav_MustFail() {
 	n := verifNewNet(verifTarget, 2)
 	n.nodes[0].neighbours = []int{1}
@@ -348,14 +367,28 @@ func VerifTrav_MappedRelisted() {
 
 // Stop at an arbitrary moment (before, during or after the queries): Stopped fires once the in-flight
 // queries have returned, every query context is cancelled, nothing is left blocked (engine verdict).
-func VerifTrav_StopAnytime() {
-	n := verifNewNet(verifTarget, 3)
-	n.nodes[0].neighbours = []int{1, 2}
-	n.nodes[1].neighbours = []int{2}
+func VerifTrav_StopAnytime() { verifStopAnytime(3, 3) }
+
+// The same with two nodes (C02's quick tier): whatever was answered by the time Stopped fires -
+// including answers that came back after Stop was called - is in the result set.
+func VerifTrav_StopEarly() { verifStopAnytime(2, 2) }
+
+func verifStopAnytime(count, maxYields int) {
+	n := verifNewNet(verifTarget, count)
+	if count == 3 {
+		n.nodes[0].neighbours = []int{1, 2}
+		n.nodes[1].neighbours = []int{2}
+	} else {
+		n.nodes[0].neighbours = []int{1}
+	}
 	alpha := verifChoice(1, 2)
-	op := Start(OperationInput{Target: n.target, Alpha: alpha, K: 2, DoQuery: n.doQuery, NodeFilter: n.nodeFilter})
+	op := Start(OperationInput{Target: n.target, Alpha: alpha, K: 2, DoQuery: n.doQuery, NodeFilter: n.nodeFilter,
+		DataFilter: func(d any) bool { _, ok := d.(string); return ok }})
 	n.seed(op, 0, true)
-	for i := verifChoice(0, 3); i > 0; i-- {
+	if count == 2 && verifNondetBool() {
+		n.seed(op, 1, true) // both known from the start: with Alpha 2 they are in flight together
+	}
+	for i := verifChoice(0, maxYields); i > 0; i-- {
 		verifYield()
 	}
 	op.Stop()
@@ -368,11 +401,14 @@ func VerifTrav_StopAnytime() {
 	for _, c := range n.ctxs {
 		verifAssert(c.Err() != nil, "C04: every query still in flight when the lookup is stopped has its context cancelled")
 	}
+	// C02 at Stopped: every responder - also one whose answer came back after Stop - is accounted for
+	n.checkClosest(op, 2, false)
 	// late AddNodes after Stop must not start anything
-	asked := n.asked[2]
-	n.seed(op, 2, true)
+	last := count - 1
+	asked := n.asked[last]
+	n.seed(op, last, true)
 	verifQuiesce()
-	verifAssert(n.asked[2] == asked, "C03: nothing is queried after the lookup has stopped")
+	verifAssert(n.asked[last] == asked, "C03: nothing is queried after the lookup has stopped")
 	verifReach("end")
 }
 
